@@ -176,6 +176,21 @@ def ftMayBeIdx (wsp : Nat → Bool) (pos : Nat → List Nat) (schema allCols : L
   let f := Filter.build pos (segHashes wsp allCols seg)
   isExist (fun n => schema.contains n || n == fieldLog) (fun _ b => multiHit contentSplit pos f b) c
 
+/-! ### the detached (OBS) layout: `FilterReader` = vertical groups + line filters -/
+
+/-- `FilterReader.IsExist` behind `BloomFilterIndexReader` for `OBSFilterPath{local, remote}`: the
+remote file holds `nv` filters in the transposed layout (`VerticalFilterReader`), the local file
+the next `nl` ones (`LineFilterReader`); a block past both is answered "no" by every in-schema
+element. Both readers evaluate the whole condition the same way — a match-phrase on a key of
+`splitMap` is looked up, any other atom is unknown (`VerticalFilterReader.hitExpr` since fix
+660bc1b; before it answered "no" for a column without `splitMap` entry) — on the same filter
+bits (`FlushVerticalFilter` / `loadHash` transpose them; tied by the op `bloomv`). -/
+def bfMayBeDetached (nv nl j : Nat) (wsp : Nat → Bool) (pos : Nat → List Nat) (schema : List Nat) (c : BCond)
+    (seg : Seg) : Option (Option Bool) :=
+  if j ≥ nv + nl then
+    (bfFileCol schema).bind fun _ => isExist (fun n => schema.contains n) (fun _ _ => some false) c
+  else bfMayBeIdx wsp pos schema c seg
+
 /-! ### the readers of a file, chained -/
 
 def answerOf (segs : List Seg) (mayBe : Seg → Option (Option Bool)) : Reader := fun j =>
